@@ -236,10 +236,15 @@ def state_key(ds):
     return (tuple((b, tuple(p), hm) for b, p, hm in items_of(ds)), ds.generation_metadata_collected is not None)
 
 
-def rebuild(s0, hist):
+def rebuild(s0, hist, chain=None):
+    """the dataset reached through hist; `chain` (a list) receives every dataset on the way (root first, the result last)"""
     ds = build_start(s0)
+    if chain is not None:
+        chain.append(ds)
     for op in hist:
         ds = apply_op(ds, op)
+        if chain is not None and not any(ds is x for x in chain):
+            chain.append(ds)
     return ds
 
 
@@ -262,7 +267,10 @@ def judge_transition(s0, hist, op, res):
     """returns the successor dataset (or None when the op raised)"""
     op = _tup(op)
     hist = [_tup(h) for h in hist]
-    pre = rebuild(s0, hist)
+    chain = []
+    pre = rebuild(s0, hist, chain)
+    ancestors = [d for d in chain if d is not pre]  # every earlier dataset of the history is somebody's input: none may be disturbed later
+    anc_fp = [deep_fp(d) for d in ancestors]
     items = items_of(pre)
     pre_fp = deep_fp(pre)
     pre_filters = json.loads(json.dumps(pre.cfg.serialize()["applied_filters"], default=str))
@@ -302,6 +310,12 @@ def judge_transition(s0, hist, op, res):
         # documented in-place collection: mazes, order, length, cfg other than the provenance entry stay
         if [(b, p) for b, p, _ in items_of(pre)] != [(b, p) for b, p, _ in items]:
             res.fail(f"C08|{ok}|input_disturbed", f"in-place {op} changed the mazes of the input", rd)
+    for k, (d, f0) in enumerate(zip(ancestors, anc_fp)):
+        if deep_fp(d) != f0:
+            res.fail(f"C08|{ok}|earlier_input_disturbed|after_{opkey(hist[-1]) if hist else 'start'}",
+                     f"{op} after {hist} on '{s0}': dataset number {k} of the history (an input of an earlier filter) changed "
+                     f"(mazes / per-maze metadata / length / cfg)", rd)
+            break
     # provenance
     if not (name == "collect_generation_meta" and pre_collected is not None):
         rec = json.loads(json.dumps(out.cfg.serialize()["applied_filters"], default=str))
